@@ -54,7 +54,8 @@ def declare_runloop(E, expected_packet_type="const:()"):
     E.contract("paramiko.packet.Packetizer.need_rekey", returns="bool", modifies=[])
     E.contract("paramiko.packet.Packetizer.complete_handshake", returns="none", modifies=[])
     E.contract("paramiko.packet.Packetizer.read_message", returns="tuple[u8,obj:Message]",
-               ensures=["0 <= result[1].packet.tell() and result[1].packet.tell() <= len(result[1].packet.getvalue())"],
+               ensures=["0 <= result[1].packet.tell() and result[1].packet.tell() <= len(result[1].packet.getvalue())",
+                        "0 <= result[1].seqno and result[1].seqno < 2**32"],
                raises={"SSHException": "True", "EOFError": "True", "OSError": "True", "NeedRekeyException": "True"},
                modifies=[])
     E.contract(T + "_send_kex_init", returns="none", raises={"SSHException": "True", "EOFError": "True", "OSError": "True"},
@@ -93,7 +94,8 @@ def generic_handlers(E):
         mods = ["self.active", "self._expected_packet", "self.in_kex", "self.authenticated"] if qn.startswith(T) else []
         E.contract(qn, returns="none", raises=dict(GENERIC_RAISES), modifies=mods,
                    ghost={"handler_calls": "ghost('handler_calls') + 1"})
-    E.contract(T + "_ensure_authed", returns="opt[obj:Message]", modifies=[])
+    if T + "_ensure_authed" not in E.contracts:
+        E.contract(T + "_ensure_authed", returns="opt[obj:Message]", modifies=[])
     if "paramiko.transport.ChannelMap.get" not in E.contracts:
         E.contract("paramiko.transport.ChannelMap.get", params={"chanid": "int"}, returns="opt[obj:Channel]", modifies=[])
     E.contract("KexEngine.parse_next", argnames=["self", "ptype", "m"], returns="none", raises=dict(GENERIC_RAISES))
@@ -127,5 +129,59 @@ def declare_c12(E):
     # read_message records what arrived (ghost) so that the postcondition can talk about it
     c = E.contracts["paramiko.packet.Packetizer.read_message"]
     c["ghost"] = {"ptype": "result[0]", "seqno": "result[1].seqno", "got_message": "True"}
-    c["ensures"].append("0 <= result[1].seqno and result[1].seqno < 2**32")
+    E.declare_ghost(ptype="int", seqno="int", got_message="bool")
+
+
+AUTHED = "(self.active and (self.auth_handler.authenticated if notnone(self.auth_handler) else False))"
+
+
+def declare_c15(E):
+    declare(E)
+    declare_runloop(E)
+    E.declare_class("paramiko.auth_handler.AuthHandler", {"authenticated": "bool"})
+    E.inline("paramiko.auth_handler.AuthHandler._handler_table", "paramiko.auth_handler.AuthHandler._server_handler_table",
+             "paramiko.auth_handler.AuthHandler._client_handler_table",
+             "paramiko.transport.Transport.is_authenticated", "paramiko.auth_handler.AuthHandler.is_authenticated")
+    # _ensure_authed itself (verified) : a server that has not authenticated the peer always produces a refusal
+    E.contract(T + "_ensure_authed", params={"ptype": "u8", "message": "obj:Message"},
+               requires={"msg_pos": "0 <= message.packet.tell() and message.packet.tell() <= len(message.packet.getvalue())"},
+               ensures={
+                   "refuses_post_auth_types_before_auth":
+                       "implies(self.server_mode and ptype > 79 and not %s, notnone(result))" % AUTHED,
+                   "lets_everything_else_through":
+                       "implies(not self.server_mode or ptype <= 79 or %s, isnone(result))" % AUTHED,
+                   "global_request_refused_with_REQUEST_FAILURE":
+                       "(result.packet.getvalue() == b'\\x52') if (notnone(result) and ptype == 80) else True",
+                   "channel_open_refused_with_OPEN_FAILURE_administratively_prohibited":
+                       "implies(ptype == 90 and len(message.packet.getvalue()) - old(message.packet.tell()) >= 4"
+                       " and unpack32(message.packet.getvalue()[old(message.packet.tell()):old(message.packet.tell()) + 4])"
+                       "     <= len(message.packet.getvalue()) - old(message.packet.tell()) - 8"
+                       " and utf8ok(message.packet.getvalue()[old(message.packet.tell()) + 4:old(message.packet.tell()) + 4"
+                       "     + unpack32(message.packet.getvalue()[old(message.packet.tell()):old(message.packet.tell()) + 4])]),"
+                       " result.packet.getvalue()[0:1] == b'\\x5c' and result.packet.getvalue()[5:9] == pack32(1)) if notnone(result) else True",
+               },
+               returns="opt[obj:Message]", raises={"UnicodeDecodeError": "True"}, modifies=["message.packet.pos"])
+    generic_handlers(E)
+    E.contracts["paramiko.transport.ChannelMap.get"] = dict(
+        params={"chanid": "int"}, returns="opt[obj:Channel]",
+        ensures=["implies(ghost('no_channels_allocated'), isnone(result))"], modifies=[])
+    E.declare_ghost(no_channels_allocated="bool")
+    E.contract(RUN_ITER + "[unauth]", params={"self": "obj:Transport"}, requires={}, ensures={}, raises={})
+    E.contract(RUN_ITER, params={"self": "obj:Transport"},
+               requires={"active": "self.active", "server": "self.server_mode",
+                         "not_authenticated": "not %s" % AUTHED,
+                         "no_channel_ever_allocated": "ghost('no_channels_allocated')",
+                         "nothing_read_yet": "not ghost('got_message') and not ghost('send_failed')"},
+               ghosts={"ptype": "int", "seqno": "int", "got_message": "bool", "sent_count": "int", "send_failed": "bool",
+                       "handler_calls": "int", "no_channels_allocated": "bool"},
+               ensures={
+                   "application_never_consulted_for_connection_layer_messages":
+                       "implies(ghost('got_message') and ghost('ptype') > 79, ghost('handler_calls') == old(ghost('handler_calls')))",
+                   "channel_open_and_global_request_are_refused":
+                       "implies(ghost('got_message') and (ghost('ptype') == 80 or ghost('ptype') == 90) and len(self._expected_packet) == 0,"
+                       " ghost('sent_count') == old(ghost('sent_count')) + 1)",
+               },
+               raises={"SSHException": "True", "EOFError": "True", "OSError": "True", "UnicodeDecodeError": "True"})
+    c = E.contracts["paramiko.packet.Packetizer.read_message"]
+    c["ghost"] = {"ptype": "result[0]", "seqno": "result[1].seqno", "got_message": "True"}
     E.declare_ghost(ptype="int", seqno="int", got_message="bool")
